@@ -820,7 +820,8 @@ def literal_block(n, opts):
 
 def p_quote_prefix_after_literal(case):
     """a block written as a bare literal ending in a newline (HTML block, indented code block) that is followed
-    by something inside an enclosing block quote: the blank line after it is written without the `>` prefix"""
+    by something inside an enclosing block quote: the blank line after it was written without the `>` prefix.
+    REPAIRED (repo_fix_cm_2, known_findings status fixed): the predicate only names a regression now"""
     for b in case.nodes(("HtmlBlock", "CodeBlock")):
         if not literal_block(b, case.opts):
             continue
@@ -833,6 +834,7 @@ def p_quote_prefix_after_literal(case):
 
 
 def p_empty_dest_title(case):
+    """REPAIRED (repo_fix_cm_3, known_findings status fixed): the predicate only names a regression now"""
     return any(not l.lit(0) and l.lit(1) for l in case.nodes(("Link", "Image")))
 
 
@@ -989,8 +991,9 @@ def p_tight_item_para_then_hr(case):
 
 def p_ctrl_char_line_start(case):
     """a Text literal starting with a byte < 0x20 is the first thing on a line inside a container with a
-    non-empty prefix (block quote, list item): outc writes the `&#N;` form through Write::write, which
-    emits the container prefix a second time because begin_line is still set"""
+    non-empty prefix (block quote, list item): outc wrote the `&#N;` form through Write::write, which
+    emitted the container prefix a second time because begin_line was still set.
+    REPAIRED (repo_fix_cm_1, known_findings status fixed): the predicate only names a regression now"""
     for h, ls in holder_line_texts(case):
         if under(h, ("BlockQuote", "Item", "TaskItem")):
             if any(l[:1] and l[0] < 0x20 for l in ls):
